@@ -193,12 +193,26 @@ func (aw *AW) exec(s Step) *CallResult {
 	case "resession":
 		// user ends and restarts the private conversation (new session, same peer)
 		p := w.P[s.A%2]
+		q := w.P[1-s.A%2]
 		r := p.End()
 		w.Enqueue(p, r)
 		w.Drain(1000)
-		w.P[1-s.A%2].End() // the peer acknowledges the end (leaves finished state)
+		q.End() // the peer acknowledges the end (leaves finished state)
 		w.Tick(tickDur[3])
-		w.Handshake(s.A % 2)
+		// who starts the new session, and how: a query, or - under require-encryption - simply
+		// the next text (queued, sent when the exchange completes)
+		st := p
+		if s.B&1 == 1 {
+			st = q
+		}
+		if s.B&2 != 0 && st.Cfg.Pol&PolReqEnc != 0 {
+			r = st.Send(w.GenText(st, 2, 0))
+			w.Enqueue(st, r)
+			w.Drain(1000)
+			w.Fault("session-restarted-by-send")
+		} else {
+			w.Handshake(st.Idx)
+		}
 		return nil
 	}
 	r, _ := w.Exec(s)
@@ -270,7 +284,7 @@ func (aw *AW) gen(wt []int) (Step, bool) {
 	case 8:
 		return Step{K: "plain", A: r.Intn(2), B: r.Intn(100)}, true
 	case 9:
-		return Step{K: "resession", A: r.Intn(2)}, true
+		return Step{K: "resession", A: r.Intn(2), B: r.Intn(4)}, true
 	case 10:
 		return Step{K: "smpstart", A: r.Intn(2), B: r.Intn(2), C: 0}, true
 	case 11:
